@@ -1,38 +1,30 @@
-"""Per-property configuration of tools/check.py.
+"""Loads the per-property configuration files tools/checks/cXX.py.
 
-Each entry:
-  lean_modules : Lean modules whose theorems are the property's proof obligations (Props/*, Oblig/*)
-  driver       : lean_exe target of the line-protocol driver (None = no correspondence stream)
-  harness      : harness binary (src/bin/<name>.rs) (None = no implementation run)
-  gens         : list of generator callables names in tools/gen.py run before the Lean build
-  level        : evidence level written
-  trusted_base : the property's part of DESIGN.md section 3
-  assumptions  : what the check assumes
-  expect_partial: names of theorems that are `_partial` versions (reported in evidence)
+Each file defines
+  CFG   : lean_modules (modules whose theorems are the property's proof obligations), driver (lean_exe target
+          or None), harness (binary name or None), gens (names of functions in tools/gen.py run before the Lean
+          build), level (evidence level), trusted_base, assumptions
+  CLAIM : text, design_ref, note, technique  (MANIFEST.json fields)
+  NOT_APPLICABLE (optional) : reason string — the property is then not claimed.
 """
+import glob
+import importlib.util
+import os
+import sys
 
-COMMON_TRUSTED = [
-    "Lean 4.33 kernel; axioms of every property theorem audited against {propext, Classical.choice, Quot.sound}",
-    "Lean compiler/runtime for the compiled driver executable that runs the model's definitions",
-    "tools/check.py (diff, known-finding matching) and the Rust harness (generators, canonicaliser, oracle)",
-    "the guarded read-only hook accessors in /repo (cargo feature `verif`)",
-]
+HERE = os.path.join(os.path.dirname(os.path.abspath(__file__)), "checks")
+sys.path.insert(0, HERE)
 
-PROPS = {
-    "C18": dict(
-        lean_modules=["NumbatModel.Props.C18"],
-        driver="drv_c18",
-        harness="c18",
-        gens=[],
-        level="proof",
-        trusted_base=COMMON_TRUSTED + [
-            "modelled, not verified: numbat/src/list.rs as Model/ListM.lean (heap of allocations + handle slots; "
-            "Arc::strong_count derived as the number of live handles; VecDeque as List; allocation never freed)",
-            "outside the model: Rust memory safety, Arc/VecDeque internals, capacity and re-allocation behaviour",
-        ],
-        assumptions=[
-            "no Weak references exist (true of list.rs), so strong_count = number of live NumbatList values on the allocation",
-            "element equality is reflexive (u32 in the harness; for Value elements containing NaN the pointer short-cut of PartialEq differs from element-wise equality)",
-        ],
-    ),
-}
+PROPS = {}
+CLAIMS = {}
+NOT_APPLICABLE = {}
+for path in sorted(glob.glob(os.path.join(HERE, "c[0-9]*.py"))):
+    pid = os.path.basename(path)[:-3].upper()
+    spec = importlib.util.spec_from_file_location("check_" + pid, path)
+    mod = importlib.util.module_from_spec(spec)
+    spec.loader.exec_module(mod)
+    if getattr(mod, "NOT_APPLICABLE", None):
+        NOT_APPLICABLE[pid] = mod.NOT_APPLICABLE
+        continue
+    PROPS[pid] = mod.CFG
+    CLAIMS[pid] = mod.CLAIM
